@@ -261,7 +261,8 @@ TEXT = ("Translation validation: every generated setter function (~1 500 quick /
         "executed on up to 4 argument vectors and compared location by location with a twin manager receiving the "
         "same values by assignment (shadow as referee); every mk_fun source is parsed back and checked for "
         "exactly-once listing and dependency order. Each generated function is validated, the space of managers "
-        "and argument vectors is sampled.")
+        "and argument vectors is sampled."
+        ' Plus a directed grouping family (all operator pairs x both groupings on rounding-sensitive values) and a second manager with the same labels generating a function between generation and call.')
 NOTE = ("Trusted: the twin replay of the history; the shadow pre-check that discards vectors on which Python divides "
         "by zero or raises; layered worlds (KF1 predicate as safety net).")
 TECHNIQUE = "runtime monitoring as translation validation: each generated function executed and compared with the manager on a twin (paired execution) + offline check of the generated source against trigger/order oracles"
